@@ -1422,9 +1422,197 @@ theorem commonAxis_fold_labels (join : Join) (axes : List Axis) (r : Axis)
   | outer => exact commonAxis_outer_mem axes r hns h
   | inner => exact commonAxis_inner_mem axes r hns h
 
-/- The direction clause does NOT extend to the fold (open finding K06: axes [9,4,0], [-2], [5] - all sorted decreasing,
-two of them with ONE label - have the common axis [9,4,0,-2,5]).  The witness is kept in known_findings.json and is
-decided by the differential run; a proved `..._counterexample` is not stated here because `decide` does not reduce
-`union1d` (merge sort by well-founded recursion) on concrete labels. -/
+/-! ### the direction clause for the fold (and the open finding K06 as a proved counterexample) -/
+
+/-- the two-array direction clause without the side condition `a.labels ≠ b.labels` (equal labels: `union` copies) -/
+theorem union_sorted_increasing_gen (a b : Axis) (ha : isIncreasing a.labels = true)
+    (hb : isIncreasing b.labels = true) (hla : 2 ≤ a.labels.length) (hlb : 2 ≤ b.labels.length)
+    (hc : (getCastKind a.kind b.kind).2 = true) :
+    (union a b).labels.Pairwise (fun x y => Label.lt x y = true) := by
+  by_cases hne : a.labels = b.labels
+  · have h1 : (a.labels == b.labels) = true := by simp [hne]
+    unfold union
+    simp only [h1, if_true]
+    exact chainB_pairwise (fun a b => Label.lt a b) Label.lt_trans a.labels ha
+  · exact union_sorted_increasing a b ha hb hla hlb hc hne
+
+/-- two strictly DEcreasing axes of one kind family with at least two labels each: the union is strictly decreasing -/
+theorem union_sorted_decreasing (a b : Axis) (ha : isDecreasing a.labels = true)
+    (hb : isDecreasing b.labels = true) (hla : 2 ≤ a.labels.length) (hlb : 2 ≤ b.labels.length)
+    (hc : (getCastKind a.kind b.kind).2 = true) :
+    (union a b).labels.Pairwise (fun x y => Label.lt y x = true) := by
+  by_cases hne : a.labels = b.labels
+  · have h1 : (a.labels == b.labels) = true := by simp [hne]
+    unfold union
+    simp only [h1, if_true]
+    exact chainB_pairwise (fun a b => Label.lt b a)
+      (fun a b c hab hbc => Label.lt_trans c b a hbc hab) a.labels ha
+  have hpw := union1d_pairwise Label.le Label.le_trans Label.le_total a.labels b.labels
+  have hnd := nodup_union1d Label.le a.labels b.labels
+  have hres : (union1d Label.le a.labels b.labels).Pairwise (fun x y => Label.lt x y = true) := by
+    have := List.Pairwise.and hpw hnd
+    exact this.imp (fun ⟨h1, h2⟩ => Label.lt_of_le_of_ne h1 h2)
+  have hsa : slope a.labels = some false := by
+    unfold slope
+    have := decreasing_headLeLast a.labels ha hla
+    unfold headLeLast at this
+    cases h1 : a.labels.head? <;> cases h2 : a.labels.getLast? <;> simp_all <;> omega
+  have hsb : slope b.labels = some false := by
+    unfold slope
+    have := decreasing_headLeLast b.labels hb hlb
+    unfold headLeLast at this
+    cases h1 : b.labels.head? <;> cases h2 : b.labels.getLast? <;> simp_all <;> omega
+  unfold union
+  have h1 : (a.labels == b.labels) = false := by simpa using hne
+  have h2 : a.labels.isEmpty = false := by cases h : a.labels <;> simp_all
+  have h3 : b.labels.isEmpty = false := by cases h : b.labels <;> simp_all
+  have hma : isMonotonic a.labels = true := by simp [isMonotonic, ha]
+  have hmb : isMonotonic b.labels = true := by simp [isMonotonic, hb]
+  simp only [h1, h2, h3, Bool.false_eq_true, if_false]
+  unfold unionLabels
+  simp only [hc, hma, hmb, hsa, hsb, sameSlope, decSlope, Bool.and_self, beq_self_eq_true, if_true]
+  exact List.pairwise_reverse.mpr hres
+
+theorem union_kind (a b : Axis) : (union a b).kind = (getCastKind a.kind b.kind).1 := by
+  unfold union
+  simp only
+  split
+  · rfl
+  · split
+    · rfl
+    · split <;> rfl
+
+/-- the union is at least as long as a duplicate-free first operand needs: two labels stay two labels -/
+theorem union_two_le (a b : Axis) (hla : 2 ≤ a.labels.length) (hnd : a.labels.Nodup) :
+    2 ≤ (union a b).labels.length := by
+  match hl : a.labels, hla, hnd with
+  | x :: y :: rest, _, hnd =>
+    have hx : x ∈ (union a b).labels := (union_mem a b x).mpr (Or.inl (by simp [hl]))
+    have hy : y ∈ (union a b).labels := (union_mem a b y).mpr (Or.inl (by simp [hl]))
+    have hxy : x ≠ y := by
+      intro e; subst e; simp at hnd
+    match hu : (union a b).labels, hx, hy with
+    | [], hx, _ => simp at hx
+    | [z], hx, hy =>
+      simp only [List.mem_singleton] at hx hy
+      exact absurd (hx.trans hy.symm) hxy
+    | _ :: _ :: _, _, _ => simp
+
+/-- a generic induction over `_common_axis` (outer): what holds for the inputs and is kept by `Axis.union` holds for the
+common axis -/
+theorem commonAxis_outer_induct (P : Axis → Prop) (hP : ∀ a b, P a → P b → P (union a b)) :
+    ∀ (axes : List Axis) (r : Axis), (∀ ax ∈ axes, P ax) → commonAxis .outer axes = some r → P r
+  | [], r, _, h => by simp [commonAxis] at h
+  | [ax], r, hn, h => by
+    simp only [commonAxis, Option.some.injEq] at h
+    subst h; exact hn _ (by simp)
+  | ax0 :: ax1 :: rest, r, hn, h => by
+    simp only [commonAxis] at h
+    cases hc : commonAxis .outer (ax1 :: rest) with
+    | none =>
+      rw [hc] at h
+      simp only [Option.some.injEq] at h
+      subst h; exact hn _ (by simp)
+    | some c =>
+      rw [hc] at h
+      have ih := commonAxis_outer_induct P hP (ax1 :: rest) c (fun a ha => hn a (by simp [ha])) hc
+      simp only at h
+      by_cases h0 : isNoneSingleton ax0 = true
+      · simp only [h0, if_true, Option.some.injEq] at h
+        subst h; exact ih
+      · simp only [h0, if_false, Bool.false_eq_true] at h
+        by_cases h1 : isNoneSingleton c = true
+        · simp only [h1, if_true, Option.some.injEq] at h
+          subst h; exact hn _ (by simp)
+        · simp only [h1, if_false, Bool.false_eq_true, Option.some.injEq] at h
+          subst h; exact hP _ _ (hn _ (by simp)) ih
+
+/-- a family of dtype kinds inside which `_get_cast_kind` is consistent and stays -/
+def KindsClosed (K : Kind → Prop) : Prop :=
+  ∀ k1 k2, K k1 → K k2 → (getCastKind k1 k2).2 = true ∧ K (getCastKind k1 k2).1
+
+/-- one kind only -/
+theorem kindsClosed_same (k : Kind) : KindsClosed (· = k) := by
+  intro k1 k2 h1 h2; subst h1; subst h2; simp [getCastKind]
+/-- the numeric family int / float -/
+theorem kindsClosed_numeric : KindsClosed (fun k => k = .i ∨ k = .f) := by
+  intro k1 k2 h1 h2
+  rcases h1 with rfl | rfl <;> rcases h2 with rfl | rfl <;> simp [getCastKind]
+
+/-- FOLD, direction clause: every input axis strictly increasing (resp. every one strictly decreasing) with at least
+two labels, kinds of one consistent family: the common axis of the outer join over any number of arrays is strictly
+increasing (resp. decreasing).  The length hypothesis is needed: `commonAxis_direction_counterexample`. -/
+theorem commonAxis_fold_sorted (K : Kind → Prop) (hK : KindsClosed K) (axes : List Axis) (r : Axis)
+    (hk : ∀ ax ∈ axes, K ax.kind) (hlen : ∀ ax ∈ axes, 2 ≤ ax.labels.length)
+    (h : commonAxis .outer axes = some r) :
+    ((∀ ax ∈ axes, isIncreasing ax.labels = true) → r.labels.Pairwise (fun x y => Label.lt x y = true)) ∧
+    ((∀ ax ∈ axes, isDecreasing ax.labels = true) → r.labels.Pairwise (fun x y => Label.lt y x = true)) := by
+  constructor
+  · intro hinc
+    have := commonAxis_outer_induct
+      (fun a => K a.kind ∧ 2 ≤ a.labels.length ∧ a.labels.Pairwise (fun x y => Label.lt x y = true))
+      (fun a b ⟨ka, la, pa⟩ ⟨kb, lb, pb⟩ => by
+        have hnd : a.labels.Nodup := pa.imp (fun {x y} hxy e => by subst e; simp [Label.lt_irrefl] at hxy)
+        refine ⟨union_kind a b ▸ (hK _ _ ka kb).2, union_two_le a b la hnd, ?_⟩
+        exact union_sorted_increasing_gen a b (pairwise_chainB _ _ pa) (pairwise_chainB _ _ pb) la lb (hK _ _ ka kb).1)
+      axes r
+      (fun ax hax => ⟨hk ax hax, hlen ax hax,
+        chainB_pairwise (fun a b => Label.lt a b) Label.lt_trans ax.labels (hinc ax hax)⟩) h
+    exact this.2.2
+  · intro hdec
+    have := commonAxis_outer_induct
+      (fun a => K a.kind ∧ 2 ≤ a.labels.length ∧ a.labels.Pairwise (fun x y => Label.lt y x = true))
+      (fun a b ⟨ka, la, pa⟩ ⟨kb, lb, pb⟩ => by
+        have hnd : a.labels.Nodup := pa.imp (fun {x y} hxy e => by subst e; simp [Label.lt_irrefl] at hxy)
+        refine ⟨union_kind a b ▸ (hK _ _ ka kb).2, union_two_le a b la hnd, ?_⟩
+        exact union_sorted_decreasing a b (pairwise_chainB (fun a b => Label.lt b a) _ pa)
+          (pairwise_chainB (fun a b => Label.lt b a) _ pb) la lb (hK _ _ ka kb).1)
+      axes r
+      (fun ax hax => ⟨hk ax hax, hlen ax hax,
+        chainB_pairwise (fun a b => Label.lt b a) (fun a b c hab hbc => Label.lt_trans c b a hbc hab)
+          ax.labels (hdec ax hax)⟩) h
+    exact this.2.2
+
+/-- the hypotheses are satisfiable by a non-trivial input (three decreasing integer axes) -/
+example : ∃ r, commonAxis .outer
+      [{ name := "x", labels := [.num 9, .num 4], kind := .i }, { name := "x", labels := [.num 4, .num 0], kind := .i },
+       { name := "x", labels := [.num 5, .num 4], kind := .i }] = some r ∧
+    r.labels.Pairwise (fun x y => Label.lt y x = true) := by
+  obtain ⟨r, hr⟩ := commonAxis_isSome .outer
+    ({ name := "x", labels := [.num 9, .num 4], kind := .i } : Axis)
+    [{ name := "x", labels := [.num 4, .num 0], kind := .i }, { name := "x", labels := [.num 5, .num 4], kind := .i }]
+  refine ⟨r, hr, (commonAxis_fold_sorted (· = .i) (kindsClosed_same .i) _ r ?_ ?_ hr).2 ?_⟩
+  · intro ax hax; simp at hax; rcases hax with rfl | rfl | rfl <;> rfl
+  · intro ax hax; simp at hax; rcases hax with rfl | rfl | rfl <;> simp
+  · intro ax hax; simp at hax; rcases hax with rfl | rfl | rfl <;> decide
+
+/-- The direction clause does NOT extend to one-label axes in a fold (finding K06, open in the library): the axes
+[9,4,0], [-2], [5] - every one sorted decreasing, two of them with ONE label, all of kind int - have the common axis
+[9,4,0,-2,5], which is sorted in no direction: `_common_axis` unites the two single labels first (ascending, `np.union1d`)
+and then concatenates, because the directions now differ. -/
+theorem commonAxis_direction_counterexample :
+    ∃ (axes : List Axis) (r : Axis),
+      (∀ ax ∈ axes, isDecreasing ax.labels = true) ∧ (∀ ax ∈ axes, ax.kind = .i) ∧
+      (∀ ax ∈ axes, ax.labels.Nodup ∧ Label.none ∉ ax.labels) ∧
+      commonAxis .outer axes = some r ∧
+      r.labels = [.num 9, .num 4, .num 0, .num (-2), .num 5] ∧ isMonotonic r.labels = false := by
+  have hu : union1d Label.le [Label.num (-2)] [Label.num 5] = [Label.num (-2), Label.num 5] := by
+    unfold union1d
+    rw [sortBy_of_pairwise Label.le _ (by decide)]
+    decide
+  have hU : union ({ name := "x", labels := [.num (-2)], kind := .i } : Axis) { name := "x", labels := [.num 5], kind := .i }
+      = { name := "x", labels := [.num (-2), .num 5], kind := .i } := by
+    unfold union unionLabels
+    rw [hu]
+    decide
+  refine ⟨[{ name := "x", labels := [.num 9, .num 4, .num 0], kind := .i },
+           { name := "x", labels := [.num (-2)], kind := .i }, { name := "x", labels := [.num 5], kind := .i }],
+    { name := "x", labels := [.num 9, .num 4, .num 0, .num (-2), .num 5], kind := .i }, ?_, ?_, ?_, ?_, rfl, by decide⟩
+  · intro ax hax; simp at hax; rcases hax with rfl | rfl | rfl <;> decide
+  · intro ax hax; simp at hax; rcases hax with rfl | rfl | rfl <;> rfl
+  · intro ax hax; simp at hax; rcases hax with rfl | rfl | rfl <;> decide
+  · simp only [commonAxis]
+    rw [hU]
+    decide
 
 end DimModel
